@@ -138,15 +138,22 @@ func preparePath(r *RunCtx, f pathFault) string {
 
 // offsets to try for an output of length L written through a buffer of size
 // bufSize: the boundaries the property names, plus seeded ones; all of them
-// when the output is small enough.
+// when the output is small enough. The seeded ones are drawn as fractions of L
+// and their number does not depend on L, so that a recorded choice trace stays
+// aligned when L differs by a few bytes between two executions (zapx lays its
+// sections out in Go map iteration order).
 func faultOffsets(c *Chooser, L int, bufSize int, max int, all bool) []int {
+	fr := make([]int, max)
+	for i := range fr {
+		fr[i] = c.Choose(1<<16, "fault.offset")
+	}
 	set := map[int]bool{}
 	add := func(n int) {
 		if n >= 0 && n < L {
 			set[n] = true
 		}
 	}
-	if all || L <= max {
+	if all {
 		for n := 0; n < L; n++ {
 			set[n] = true
 		}
@@ -160,14 +167,20 @@ func faultOffsets(c *Chooser, L int, bufSize int, max int, all bool) []int {
 		add(L - footerLen)
 		add(L - footerLen - 1)
 		if bufSize > 0 && bufSize < L {
-			for k := 1; k*bufSize < L && len(set) < max; k++ {
+			// flush boundaries: the first ones and seeded later ones
+			nb := L / bufSize
+			for k := 1; k <= nb && k <= 3; k++ {
 				add(k*bufSize - 1)
 				add(k * bufSize)
 				add(k*bufSize + 1)
 			}
+			for i := 0; i < max/2; i++ {
+				k := 1 + fr[i]*nb>>16
+				add(k*bufSize - 1 + i%3)
+			}
 		}
-		for len(set) < max {
-			add(c.Choose(L, "fault.offset"))
+		for i := max / 2; i < max; i++ {
+			add(fr[i] * L >> 16)
 		}
 	}
 	out := make([]int, 0, len(set))
@@ -175,16 +188,6 @@ func faultOffsets(c *Chooser, L int, bufSize int, max int, all bool) []int {
 		out = append(out, n)
 	}
 	sort.Ints(out)
-	if len(out) > max && !all {
-		// keep a seeded subset, always including the named boundaries at both ends
-		keep := out[:0:0]
-		for i, n := range out {
-			if i < 2 || i >= len(out)-6 || c.Choose(len(out), "fault.keep") < max {
-				keep = append(keep, n)
-			}
-		}
-		out = keep
-	}
 	return out
 }
 
@@ -333,7 +336,7 @@ func writeFaults(r *RunCtx) {
 			for mode := 0; mode < 2; mode++ {
 				fw := &faultyWriter{n: n, mode: mode}
 				nw, err := sb.WriteTo(fw)
-				what := fmt.Sprintf("WriteTo(%s, %d bytes) with a writer failing at byte %d (mode %d)", h.Name, L, n, mode)
+				what := fmt.Sprintf("WriteTo(%s) with a writer failing at byte %d of %d (mode %d)", h.Name, n, L, mode)
 				if fw.fired {
 					r.count(fmt.Sprintf("fault.writer.mode%d", mode))
 					r.NonTrivial = true
@@ -341,7 +344,7 @@ func writeFaults(r *RunCtx) {
 				if err == nil {
 					r.fail("C17.success-incomplete", "WriteTo", "%s returned no error (n=%d) although only %d of %d bytes were accepted", what, nw, fw.buf.Len(), L)
 				}
-				r.ev("%s -> err", what)
+				r.evv(fmt.Sprintf("writeto mode%d err", mode), "%s -> err", what)
 			}
 		}
 		// no-fault run still complete
@@ -472,7 +475,7 @@ func (w *World) judgePathOp(op, what string, f pathFault, p string, err error, L
 			st, _ := os.Lstat(p)
 			r.fail("C17.file-left-behind", op, "%s returned %v but left %q behind (%d bytes)", what, err, filepath.Base(p), st.Size())
 		}
-		r.ev("%s -> error, no file", what)
+		r.evv(op+" "+f.kind, "%s -> error, no file", what)
 		return
 	}
 	if mustFail {
@@ -484,7 +487,7 @@ func (w *World) judgePathOp(op, what string, f pathFault, p string, err error, L
 		r.fail("C17.success-incomplete", op, "%s reported success although the destination could not take the output (file size now %d)", what, sz)
 	}
 	checkComplete()
-	r.ev("%s -> success, complete", what)
+	r.evv(op+" "+f.kind, "%s -> success, complete", what)
 }
 
 // ---------------------------------------------------------------------------
@@ -612,7 +615,9 @@ func cancelledMerges(r *RunCtx) {
 		if l := engineLive(); l > live0 {
 			r.fail("C18.engine-leak", "Merge", "%s: %d vector indexes are still alive after the call (before: %d)", what, l, live0)
 		}
-		r.ev("%s -> err=%v", what, err != nil)
+		// which section a given write belongs to varies with zapx's map-ordered
+		// section loop, so the outcome at instant k is not part of the run digest
+		r.evv(fmt.Sprintf("cancel k=%d e=%d", in.k, in.e), "%s -> err=%v", what, err != nil)
 	}
 	// concurrent closer: a second task closes the channel at a scheduler-chosen yield
 	if !r.tsan {
@@ -659,7 +664,7 @@ func cancelledMerges(r *RunCtx) {
 			w.checkCompleteMerge("C18", what, p, maps, size, ref)
 			r.count("fault.cancel.concurrent-finished")
 		}
-		r.ev("%s -> err=%v", what, err != nil)
+		r.evv("concurrent closer", "%s -> err=%v", what, err != nil)
 	}
 	r.count("op.merge")
 	r.Sample["ops"] = r.Events
